@@ -10,7 +10,7 @@
    skipTypeScriptReturnType, skipTypeScriptTypeArguments).  [shape] is that
    knowledge (site kinds without their payload); [erase] replays the parser on
    the typed token stream. *)
-From V Require Import Common.Base C06.TsTokens C06.SkipType C06.SkipMono C06.TypeGrammar C06.SkipProofs.
+From V Require Import Common.Base C06.TsTokens C06.SkipType C06.SkipMono C06.TypeGrammar C06.SkipProofs C06.SkipProofs6.
 
 Inductive site : Type :=
 | SColon (t : ty)          (* ": T" on a binding, parameter, property *)
@@ -81,7 +81,8 @@ Fixpoint sites_ok (p : list elem) : bool :=
   match p with
   | [] => true
   | J _ :: r => sites_ok r
-  | S (SColon t) :: r | S (SRet t) :: r | S (SAs _ t) :: r => wfb t && follow_ok (typed r) && sites_ok r
+  | S (SColon t) :: r | S (SAs _ t) :: r => wfb t && follow_ok (typed r) && sites_ok r
+  | S (SRet t) :: r => wf_ret_with wfb t && follow_ok (typed r) && sites_ok r
   | S (SArgs ts) :: r => match ts with [] => false | _ => forallb wfb ts end && sites_ok r
   | S _ :: r => sites_ok r
   end.
@@ -103,8 +104,7 @@ Proof.
         change (expect KColon (tk1 KColon :: R mg t (typed r))) with (Ok (A:=toks) (R mg t (typed r))).
         unfold bind, snd_of. rewrite H2 by lia. cbn iota. unfold bind. apply HN. lia.
       * destruct (IH ltac:(assumption)) as [N HN].
-        destruct (skip_exact_R mg t (typed r) LLowest fl_ret) as [N2 H2]; auto; try reflexivity.
-        { unfold LLowest, LPrefix; lia. } { apply lvl_ok_lowest. }
+        destruct (skip_exact_ret mg t (typed r)) as [N2 H2]; auto.
         exists (N + N2)%nat. intros n Hn. cbn [shape map kind_of typed untyped erase]. fold (shape r).
         change (expect KColon (tk1 KColon :: R mg t (typed r))) with (Ok (A:=toks) (R mg t (typed r))).
         unfold bind, snd_of. rewrite H2 by lia. cbn iota. unfold bind. apply HN. lia.
